@@ -427,6 +427,59 @@ def deduplicate_rule(chk, src, rule):
                       "large duplicates cancel: " + (probs[0] if probs else ""))
 
 
+def factor_dtype_rule(chk, src):
+    """arrays that receive term factors / operator matrices take their dtype from them (a fixed real dtype drops imaginary parts with a warning only)"""
+    init = src.func(MPO, "Mpo.__init__")
+    CREATORS = {"np.zeros", "np.empty", "np.ones", "np.full", "np.zeros_like", "np.empty_like"}
+    for rel in (SYM, MPO):
+        for fi in src.funcs_in(rel):
+            if fi.parent is not None:
+                continue
+            names = {p for p in fi.params() if p in ("factor", "const", "new_factor")}
+            tainted = set(names)
+            has = bool(names) or any(isinstance(n, ast.Name) and n.id in ("factor", "op_mat") for n in ast.walk(fi.node)) or "op_mat" in unparse(fi.node)
+            if not has:
+                continue
+            changed = True
+            while changed:
+                changed = False
+                for n in walk_no_nested(fi.node):
+                    if isinstance(n, ast.Assign) and isinstance(n.targets[0], ast.Name):
+                        if n.targets[0].id not in tainted and any(isinstance(x, ast.Name) and x.id in tainted for x in ast.walk(n.value)) or \
+                                (n.targets[0].id not in tainted and "op_mat(" in unparse(n.value)):
+                            tainted.add(n.targets[0].id)
+                            changed = True
+                # a loop over (zip / enumerate of) tainted sequences taints its targets
+                for n in walk_no_nested(fi.node):
+                    if isinstance(n, (ast.For, ast.comprehension)) and any(isinstance(x, ast.Name) and x.id in tainted for x in ast.walk(n.iter)):
+                        for x in ast.walk(n.target):
+                            if isinstance(x, ast.Name) and x.id not in tainted:
+                                tainted.add(x.id)
+                                changed = True
+            created = {}
+            for n in walk_no_nested(fi.node):
+                if isinstance(n, ast.Assign) and isinstance(n.targets[0], ast.Name) and isinstance(n.value, ast.Call) and unparse(n.value.func) in CREATORS:
+                    created[n.targets[0].id] = n.value
+            for n in walk_no_nested(fi.node):
+                tgt = None
+                val = None
+                if isinstance(n, ast.Assign) and isinstance(n.targets[0], ast.Subscript) and isinstance(n.targets[0].value, ast.Name):
+                    tgt, val = n.targets[0].value.id, n.value
+                if isinstance(n, ast.AugAssign) and isinstance(n.target, ast.Subscript) and isinstance(n.target.value, ast.Name):
+                    tgt, val = n.target.value.id, n.value
+                if tgt in created and val is not None and (any(isinstance(x, ast.Name) and x.id in tainted for x in ast.walk(val)) or "op_mat(" in unparse(val)):
+                    cr = created[tgt]
+                    dt = [k.value for k in cr.keywords if k.arg == "dtype"]
+                    fixed_real = (not dt and unparse(cr.func) not in ("np.zeros_like", "np.empty_like")) or \
+                        (dt and unparse(dt[0]) in ("float", "np.float64", "np.float32", "int", "np.int64", "'float'", "backend.real_dtype"))
+                    chk.ob("factor-dtype", f"{fi.qual}: {tgt} = {norm_stmt(cr, 50)}", not fixed_real, fi.where, unparse(dt[0]) if dt else "default float64", "dtype taken from the factors",
+                           line=cr.lineno, detail=f"{fi.qual} writes term factors / operator matrices into an array of fixed real dtype: imaginary parts of complex prefactors are dropped "
+                                                  f"(only a ComplexWarning), so complex Hamiltonians give a wrong operator")
+    mi = [n for n in ast.walk(init.node) if isinstance(n, ast.Assign) and unparse(n.targets[0]) == "self.dtype"]
+    chk.ob("factor-dtype", "Mpo.__init__: dtype of the operator = dtype of the factors", len(mi) == 1 and unparse(mi[0].value) == "factor.dtype", init.where, [unparse(x.value) for x in mi], "factor.dtype",
+           line=init.node.lineno)
+
+
 def run(chk):
     src = chk.src
     chk.explanation = (
@@ -657,48 +710,7 @@ def run(chk):
                 n_cast += 1
                 chk.ob("narrow-cast", f"{fi.qual}: {norm_stmt(c, 70)}", bool(guards), fi.where, guards or "no assertion", f"assert len({sorted(lens)[0]}) <(=) np.iinfo(np.uint16).max",
                        line=c.lineno, detail=f"{fi.qual} stores a count into a 16-bit table without checking it fits: beyond 65535 operators the indices wrap around silently")
-    # ---- factor dtype
-    CREATORS = {"np.zeros", "np.empty", "np.ones", "np.full", "np.zeros_like", "np.empty_like"}
-    for rel in (SYM, MPO):
-        for fi in src.funcs_in(rel):
-            if fi.parent is not None:
-                continue
-            names = {p for p in fi.params() if p in ("factor", "const", "new_factor")}
-            tainted = set(names)
-            has = bool(names) or any(isinstance(n, ast.Name) and n.id in ("factor", "op_mat") for n in ast.walk(fi.node)) or "op_mat" in unparse(fi.node)
-            if not has:
-                continue
-            changed = True
-            while changed:
-                changed = False
-                for n in walk_no_nested(fi.node):
-                    if isinstance(n, ast.Assign) and isinstance(n.targets[0], ast.Name):
-                        if n.targets[0].id not in tainted and any(isinstance(x, ast.Name) and x.id in tainted for x in ast.walk(n.value)) or \
-                                (n.targets[0].id not in tainted and "op_mat(" in unparse(n.value)):
-                            tainted.add(n.targets[0].id)
-                            changed = True
-            created = {}
-            for n in walk_no_nested(fi.node):
-                if isinstance(n, ast.Assign) and isinstance(n.targets[0], ast.Name) and isinstance(n.value, ast.Call) and unparse(n.value.func) in CREATORS:
-                    created[n.targets[0].id] = n.value
-            for n in walk_no_nested(fi.node):
-                tgt = None
-                val = None
-                if isinstance(n, ast.Assign) and isinstance(n.targets[0], ast.Subscript) and isinstance(n.targets[0].value, ast.Name):
-                    tgt, val = n.targets[0].value.id, n.value
-                if isinstance(n, ast.AugAssign) and isinstance(n.target, ast.Subscript) and isinstance(n.target.value, ast.Name):
-                    tgt, val = n.target.value.id, n.value
-                if tgt in created and val is not None and (any(isinstance(x, ast.Name) and x.id in tainted for x in ast.walk(val)) or "op_mat(" in unparse(val)):
-                    cr = created[tgt]
-                    dt = [k.value for k in cr.keywords if k.arg == "dtype"]
-                    fixed_real = (not dt and unparse(cr.func) not in ("np.zeros_like", "np.empty_like")) or \
-                        (dt and unparse(dt[0]) in ("float", "np.float64", "np.float32", "int", "np.int64", "'float'", "backend.real_dtype"))
-                    chk.ob("factor-dtype", f"{fi.qual}: {tgt} = {norm_stmt(cr, 50)}", not fixed_real, fi.where, unparse(dt[0]) if dt else "default float64", "dtype taken from the factors",
-                           line=cr.lineno, detail=f"{fi.qual} writes term factors / operator matrices into an array of fixed real dtype: imaginary parts of complex prefactors are dropped "
-                                                  f"(only a ComplexWarning), so complex Hamiltonians give a wrong operator")
-    mi = [n for n in ast.walk(init.node) if isinstance(n, ast.Assign) and unparse(n.targets[0]) == "self.dtype"]
-    chk.ob("factor-dtype", "Mpo.__init__: dtype of the operator = dtype of the factors", len(mi) == 1 and unparse(mi[0].value) == "factor.dtype", init.where, [unparse(x.value) for x in mi], "factor.dtype",
-           line=init.node.lineno)
+    factor_dtype_rule(chk, src)
     # ---- layout: abstract run of the two builder functions on symbolic operands (two consecutive runs share module-level names)
     from ..syminterp import SymInterp, Sym
     from .tree_rules import _BasisSym, _OpMat, _MoSym, _Cell
